@@ -126,10 +126,27 @@ class B:
         if self.kind == 'cmp':
             return f'({self.a!r} {self.op} 0)'
         if self.kind == 'not':
-            return f'!{self.a!r}'
+            return '!' + _short_repr(self.a)
         if self.kind in ('and', 'or'):
-            return '(' + f' {self.kind} '.join(map(repr, self.a)) + ')'
+            # flatten left-nested chains iteratively (a & b & c ... can be thousands deep)
+            parts, stack = [], [self]
+            while stack and len(parts) < 8:
+                n = stack.pop()
+                if n.kind == self.kind:
+                    stack.extend(reversed(n.a))
+                else:
+                    parts.append(n)
+            txt = f' {self.kind} '.join(_short_repr(p) for p in parts)
+            return '(' + txt + (' ...' if stack else '') + ')'
         return f'z3[{self.a}]'
+
+
+def _short_repr(b, depth=3):
+    if b.kind in ('and', 'or') or depth <= 0:
+        return repr(b) if depth > 0 else '(...)'
+    if b.kind == 'not':
+        return '!' + _short_repr(b.a, depth - 1)
+    return repr(b)
 
 
 TRUE = B('const', True)
